@@ -191,7 +191,9 @@ pub fn run_c13(tier: Tier, seed: u64) -> i32 {
             // moves the filtered column away from its table position
             let mut union_second: Vec<Row> = Vec::new();
             let mut union_proj: Vec<Row> = Vec::new();
-            let neg = rng.range(-45, -1);
+            // a non-negative literal (a negative one is a unary minus, which pruning does not
+            // evaluate); ids of every file but the first start at 1_000_000, far above it
+            let neg = rng.range(5, 45);
             let mut sum_count = 0i64;
             let mut sum_v: i64 = 0;
             let mut ok = true;
